@@ -3,6 +3,7 @@
 preceded by setting did_exceed_match_limit; ts_query_cursor_exec re-initialises every per-execution
 field; remove_match releases and removes exactly the state with the given id.
 """
+import re
 from common import *  # noqa: F401,F403
 from cstores import stores, writes_record, lvalue_chain
 
@@ -398,7 +399,7 @@ def rule_any_all(ctx, F):
             if truth is None:
                 return m
             txt, t = cond_text(fn, cond, truth)
-            both = "is_positive_match" in txt and "is_positive)" in txt.replace("is_positive_match", "") + ")"
+            both = "is_positive_match" in txt and re.search(r"\bis_positive\b", txt.replace("is_positive_match", "")) is not None
             if both and ((" == " in txt and t) or (" != " in txt and not t)):
                 return (m[0], True)
             if "match_all_nodes" in txt and t:
@@ -471,6 +472,69 @@ def rule_limit_in_use(ctx, F):
             ctx.ok("L2", "capture_list_pool_is_empty:compares-with-the-limit", "capture_list_pool_is_empty is `%s`" % rets[0][:90], nontrivial=False)
         else:
             ctx.bad("L2", "capture_list_pool_is_empty:compares-with-the-limit", "capture_list_pool_is_empty no longer compares with max_capture_list_count")
+
+
+def rule_rooted(ctx, F):
+    """R4: a pattern is "rooted" only if no later step of it sits at the root's depth.  The range restriction lets a rooted
+    pattern start only at a node that itself intersects the range (R2); a top-level `(x)+ @c` has a second depth-0 step
+    (the loop-back pass-through) and may start anywhere under an intersecting parent — otherwise the cursor starts the
+    repetition in the middle of a run and reports a truncated match the unrestricted cursor never reports.  In
+    ts_query_new the scan over the pattern's steps moves on to the next step only after finding that the current one is
+    not at the start depth (and stops at the dead end)."""
+    from flow import GateMonitor, Search as _Search
+    fn = ctx.need_fn(F, "ts_query_new", "R4")
+    if not fn:
+        return
+    key = "ts_query_new:every-step-depth-compared"
+    unroot = [pt for pt, n in find(fn, "is_rooted = 0")]
+    if not unroot:
+        ctx.bad("R4", key, "ts_query_new no longer clears is_rooted for a pattern with a second step at the root's depth")
+        return
+    # the loop around that store: blocks from which the store is reachable and that are reachable from it … the store is
+    # followed by `break`, so take the cycle through the comparison that guards it
+    guard = set()
+    for pt in unroot:
+        for b in fn.blocks.values():
+            if any(e.to == pt[0] for e in b.succs) and fn.cond(b.id) is not None:
+                guard.add(b.id)
+    def dist(src, dst):
+        seen, frontier, d = {src}, [src], 0
+        while frontier:
+            if dst in frontier:
+                return d
+            nxt = []
+            for x in frontier:
+                for ed in fn.blocks[x].succs:
+                    if ed.to not in seen:
+                        seen.add(ed.to)
+                        nxt.append(ed.to)
+            frontier, d = nxt, d + 1
+        return None
+    steps = []
+    for pt, e in fn.points():
+        if any(n.get("k") == "un" and n.get("op") in ("post++", "pre++") for n in own_walk(e)):
+            ds = [(dist(pt[0], g), dist(g, pt[0])) for g in guard]
+            ds = [a + b for a, b in ds if a is not None and b is not None]
+            if ds:
+                steps.append((min(ds), pt))
+    if not steps:
+        ctx.bad("R4", key, "the loop step of the scan that computes is_rooted was not found")
+        return
+    # the innermost loop around the comparison: the increment on the shortest cycle through it
+    best = min(d for d, pt in steps)
+    cand = [pt for d, pt in steps if d == best]
+    mon_ok = []
+    for pt in cand:
+        g = GateMonitor([pt], [("child_step->depth == start_depth", False)], None, ())
+        g.label = "depth compared"
+        sr = _Search(fn, g)
+        mon_ok.append((pt, sr.run(0) is None))
+    ctx.analysed.setdefault("R4_loop_steps", [fn.loc(pt) for pt in cand])
+    if all(ok for pt, ok in mon_ok):
+        ctx.ok("R4", key, "the scan advances to the next step only after `child_step->depth == start_depth` was found false for the current one")
+    else:
+        ctx.bad("R4", key, "ts_query_new's scan for a second step at the root's depth can move on to the next step without comparing the current step's depth (%s): a pattern whose extra depth-0 step is skipped — "
+                "e.g. the pass-through step of a top-level `(x)+` — counts as rooted, and under a byte/point range the cursor starts it in the middle of a run of siblings" % ", ".join(fn.loc(pt) for pt, ok in mon_ok))
 
 
 def rule_definite(ctx, F):
@@ -619,6 +683,7 @@ def run(ctx):
         rule_definite(ctx, F)
         rule_both_units(ctx, F)
         rule_limit_in_use(ctx, F)
+        rule_rooted(ctx, F)
     rule_rust(ctx)
     return ctx.finish(
         "Pairing and field-coverage rules over query.c: every discard of a query state under capture-list-pool exhaustion is preceded by "
